@@ -202,9 +202,6 @@ func suffixProbes(r *core.Rng) []ast.Node {
 			ast.Binary{Op: "+", L: icall("h"), R: nm("x")}}}}},
 		icall("zgrow", il(int64(r.Range(1, 9))), il(int64(r.Range(300, 700)))),
 		icall("zgrow", il(int64(r.Range(1, 9))), il(int64(r.Range(900, 1600)))),
-		// a function that reads a local it assigns only on another path: nil, whatever an earlier failed statement left on the stack
-		ast.Assign{Name: "zun", Value: ast.FuncLit{Params: []string{"c", "pad"}, Body: ast.Block{Stmts: []ast.Node{ast.If{Cond: nm("c"), Then: ast.Assign{Name: "zx", Value: il(1)}}, ast.If{Cond: nm("c"), Then: ast.Assign{Name: "zy", Value: il(2)}}, nm("zy")}}}},
-		icall("zun", ast.BoolLit{V: false}, il(0)),
 		ast.Assign{Name: "zfresh", Value: ast.ArrayLit{Elems: []ast.Node{ast.StrLit{V: fmt.Sprintf("fresh-%d", r.Intn(100))}, ast.FloatLit{V: 7.25}, ast.StrLit{V: "later"}}}},
 		icall("zkeep", il(int64(r.Intn(9)))),
 		ast.For{Vars: []string{"zi"}, Iters: []ast.Node{icall("zkgen", il(int64(r.Range(20, 60))))}, Body: nm("zi")},
@@ -251,7 +248,12 @@ func c08Case(ctx *core.Ctx, idx int) core.Result {
 	if where == "parse-error" {
 		parseErr = parseErrTexts[r.Intn(len(parseErrTexts))]
 	}
-	suffix := append(g.Session(r.Range(0, 2)), suffixProbes(r)...)
+	// first thing after the failure: a function (defined before it) that reads locals it assigns only on another
+	// path; they are nil, whatever the failed statement left in the stack slots they now occupy
+	prefix = append(prefix, ast.Assign{Name: "zun", Value: ast.FuncLit{Params: []string{"c", "pad"}, Body: ast.Block{Stmts: []ast.Node{
+		ast.If{Cond: nm("c"), Then: ast.Assign{Name: "zx", Value: il(1)}}, ast.If{Cond: nm("c"), Then: ast.Assign{Name: "zy", Value: il(2)}}, ast.If{Cond: nm("c"), Then: ast.Assign{Name: "zw", Value: il(3)}},
+		nm([]string{"zx", "zy", "zw"}[r.Intn(3)])}}}})
+	suffix := append([]ast.Node{icall("zun", ast.BoolLit{V: false}, il(0))}, append(g.Session(r.Range(0, 2)), suffixProbes(r)...)...)
 	res.Hash = core.Mix(sessionHash(append(append(append([]ast.Node{}, prefix...), fstmts...), suffix...)) ^ core.HashString(parseErr) ^ uint64(idx%2))
 	in := map[string]any{"prefix": sessionText(prefix), "failing": sessionText(fstmts), "parse_error_text": parseErr, "suffix": sessionText(suffix), "failure_position": where, "repl_mode": doOut}
 	stdin := "only one line\n"
